@@ -83,9 +83,11 @@ func vC02Block(n int) []byte {
 }
 
 // vC02Corrupt concretises pre = "corrupt_old": the corruption kind ck is drawn by checks/C02.py
-//   flip   one bit flipped          trunc  a proper prefix
-//   ext    the block + appended bytes (an intact PREFIX: a comparison that stops early is fooled)
-//   subst  a different block        empty  a zero-length file
+//
+//	flip   one bit flipped          trunc  a proper prefix
+//	ext    the block + appended bytes (an intact PREFIX: a comparison that stops early is fooled)
+//	subst  a different block        empty  a zero-length file
+//
 // (for the empty block only ext and subst differ from the intact copy; others fall back to ext)
 func vC02Corrupt(n int, ck string) []byte {
 	b := append([]byte(nil), vC02Block(n)...)
